@@ -31,10 +31,11 @@ CHECKS["C06"] = {
     "note": "for the explicit splitting integrators the second-order conditions (sum over ordered sub-step pairs of tau_i tau_j == t^2/2) are discharged from the traced times; for the implicit and constrained "
             "schemes 'first-order map composed with its adjoint => order 2' remains a cited theorem (A9); energy error O(eps^2) follows from order 2 by the standard argument (cited); in the trace obligations flows are contract stubs, their exactness and the "
             "gradient consistency of the system's own Hamiltonian are imported from the C07 / C05 obligation sets (run as part of this check); "
-            "number of free coefficients bounded (values unbounded); reals for floats.",
+            "number of free coefficients bounded (values unbounded); reals for floats."
+            ' Added in rounds 3-4: the implicit sub-step contracts of C02 are imported and the stub system forks on isinstance tests (a fast path keyed on the system class is explored).',
 }
 CHECKS["C02"] = {
-    "engine": "pyvc",
+    "engine": "pyvc+ncalg",
     "technique": "contract-based deductive verification: frame/postconditions and exceptional postconditions on the real integrator sub-steps (abstract vector algebra + z3), callee contracts for solvers and flows",
     "design_ref": "DESIGN.md section 7 C02",
     "text": "step() of every integrator class is proved to leave its input state untouched and to let only IntegratorErrors escape; explicit schemes have palindromic traces of "
@@ -42,7 +43,8 @@ CHECKS["C02"] = {
             "every adjoint sub-step the explicit update is proved to be its algebraic adjoint and every normal return is proved to have passed the reversibility check (on a copy, with "
             "negated time, against the initial value); the constrained inner loop is cut by an invariant for any n_inner_step.",
     "note": "component flows are contract stubs assumed to be group actions (C07); uniqueness of implicit solutions (A8); 'up to solver tolerance' not quantified; vectors are abstract "
-            "linear combinations (equalities proved coefficient-wise).",
+            "linear combinations (equalities proved coefficient-wise)."
+            ' Added in rounds 3-4 (obligations, not assumptions): group laws of the real component flows (C07, Engine B + D), the cache protocol of states.py incl. key injectivity (C09), sub-step errors propagate unchanged (no silent fallback).',
 }
 CHECKS["C17"] = {
     "engine": "pyvc",
@@ -56,14 +58,15 @@ CHECKS["C17"] = {
             "constructors and sample_momentum are contract stubs; precondition: every chain contributes >= 1 update.",
 }
 CHECKS["C04"] = {
-    "engine": "pyvc",
+    "engine": "pyvc+ncalg",
     "technique": "contract-based deductive verification: loop invariants over abstract operator words (pos == pos0 - Phi_q mu, mu in range(J_prev^T)) on the real projection solvers; ghost-trace postconditions on the constrained integrator; z3",
     "design_ref": "DESIGN.md section 7 C04",
     "text": "The three projection solvers are symbolically executed from source with the system as a contract stub: an inductive invariant proves that position and momentum corrections "
             "share one Lagrange multiplier in range(J_prev^T) for every iteration count (including the exhausted line search), a normal return implies a residual below tolerance evaluated at "
             "the returned position, failures are ConvergenceErrors; the constrained integrator is proved to project after every sub-step for any inner-step count.",
     "note": "convergence (liveness) not claimed; constraint function/Jacobian uninterpreted (A4); dh2_flow_dmom and Gram inverse are contract stubs (C07/C10); the closed-form cotangent "
-            "projection identity J M^-1 P p = 0 belongs to the symbolic-array engine (listed in evidence notes when not built); reals for floats.",
+            "projection identity J M^-1 P p = 0 belongs to the symbolic-array engine (listed in evidence notes when not built); reals for floats."
+            ' Added in rounds 3-4: the closed-form cotangent projection, Gram matrix and projected momentum draw for ALL dimensions n, k and every metric object satisfying the matrix contract (Engine D); cache-key injectivity; the stub system exposes constr so that a skipped retraction is visible.',
 }
 CHECKS["C12"] = {
     "engine": "pyvc",
@@ -73,7 +76,8 @@ CHECKS["C12"] = {
             "below tolerance on the returned iterate and every exceptional exit is a ConvergenceError; integrator sub-steps never continue after a failed reversibility check and step() "
             "lets only IntegratorErrors escape; NaN-induced mici.errors.LinAlgError escaping step() is reported as the known finding D13.",
     "note": "faults are not injected into the solver set-up calls on the previous (already validated) state; transitions' handling of IntegratorError / NaN energies is covered by the "
-            "transition contracts when built (see evidence notes); multi-iteration chain continuation rests on C13's loop invariant.",
+            "transition contracts when built (see evidence notes); multi-iteration chain continuation rests on C13's loop invariant."
+            ' Added in rounds 3-4: sub-step errors propagate; step() raises only error kinds every transition declares; error flags by class membership incl. subclasses; contract-less loops are unrolled (bounded) and reported undecided.',
 }
 CHECKS["C09"] = {
     "engine": "pyvc + frames",
@@ -85,7 +89,8 @@ CHECKS["C09"] = {
             "set is within its declared dependencies, auxiliary outputs are covered by the primary's dependencies, cached values do not alias state variables (known finding D7), and no "
             "library function mutates a state array through an alias.",
     "note": "small-model argument (keys only compared for equality); id() injective; user functions pure and returning fresh objects; static analysis tracks reads through "
-            "self.<m>(state)/super() calls only.",
+            "self.<m>(state)/super() calls only."
+            ' Added in rounds 3-4: cache-key injectivity, pickling leaves the live family intact, aliasing / value-comparison predicates of numpy answer both ways, functools.cache stub.',
 }
 CHECKS["C18"] = {
     "engine": "pyvc + frames",
@@ -94,7 +99,8 @@ CHECKS["C18"] = {
     "text": "A valid entry costs zero user-function evaluations, a miss one, auxiliary outputs turn later requests into hits, copies carry the cache, assignments invalidate only "
             "dependants (for every abstract configuration); one leapfrog / BCSS step from a state with a valid gradient entry costs exactly #stages gradients and returns a state with a "
             "valid entry (so n steps cost n(+1)), the value returned alongside the gradient is reused, momentum refresh keeps position-dependent entries.",
-    "note": "tree transitions: bound n+2 from a fresh start state is stated, not proved here; metric stub; small-model argument as in C09.",
+    "note": "tree transitions: bound n+2 from a fresh start state is stated, not proved here; metric stub; small-model argument as in C09."
+            ' Added in rounds 3-4: encapsulation frame (only states.py touches the memo tables); a memoised call leaves other entries alone; auxiliary outputs name memoised methods; aliasing predicates fork.',
 }
 CHECKS["C13"] = {
     "engine": "pyvc",
@@ -105,7 +111,8 @@ CHECKS["C13"] = {
             "is the last one; the sequential loop and the stage loop of sample_chains are proved to pass per-chain arrays, offsets equal to the recorded iterations so far, array lengths "
             "equal to n_trace_iter, over the option space (n_process incl. None, trace_warm_up, trace function sets, adapters, memmap).",
     "note": "arrays are ghost row logs (numpy assignment / allocation / open_memmap trusted, A12); memmap<->path pytree conversion is not modelled (stubs); transitions/adapters/trace "
-            "functions are contract stubs; multi-process branch only up to the choice of chain function (A14).",
+            "functions are contract stubs; multi-process branch only up to the choice of chain function (A14)."
+            ' Added in rounds 3-4: body of _open_new_memmap; parallel collation for every pickup order; BOUNDED native rows-vs-states run with transitions that update their argument in place; loop-carried variables the contract does not describe are unknowns.',
 }
 CHECKS["C14"] = {
     "engine": "pyvc + frames",
@@ -115,7 +122,8 @@ CHECKS["C14"] = {
             "function the real parent and worker code is interpreted over stub queues/pool (items pickled on put, every assignment of 3 chains to workers enumerated): each chain sampled "
             "once with its own arguments, outputs in chain order, and the worker-side generator advance flows back to the parent; no unseeded randomness in the library.",
     "note": "A14 (multiprocessing semantics) and A10 (numpy generators) trusted; 'frame disjointness + A14 => schedule independence' is an informal inference; real OS scheduling is not explored; "
-            "known finding D19 (base-generator draws depend on the chain count).",
+            "known finding D19 (base-generator draws depend on the chain count)."
+            ' Added in rounds 3-4: shared-object frame (no write to self outside __init__) over adapters, transitions and integrators; generators with both jumped and a seed sequence must be derived from the state.',
 }
 CHECKS["C15"] = {
     "engine": "pyvc",
@@ -124,7 +132,8 @@ CHECKS["C15"] = {
     "text": "For an interrupt at any call site of any iteration: _sample_chain returns normally with the interrupt as output, the returned state is a complete chain state, rows written "
             "belong to the current row only, memmaps are flushed and the iterator context closed; the sequential loop starts no further chain; sample_chains returns immediately and "
             "normally without starting later stages or finalizing adapters on partial chain lists.",
-    "note": "worker/parent interrupt propagation through multiprocessing queues under A14 only; a second interrupt during clean-up is out of scope.",
+    "note": "worker/parent interrupt propagation through multiprocessing queues under A14 only; a second interrupt during clean-up is out of scope."
+            ' Added in rounds 3-4: the interrupt reaching every worker; a blocking get on an empty progress queue after all workers returned is a termination violation; memmap fill; logger call arguments are evaluated.',
 }
 CHECKS["C10"] = {
     "engine": "symla+ncalg",
@@ -150,7 +159,8 @@ CHECKS["C11"] = {
     "text": "All eight differentiable matrix classes with every option (both signs, both triangles, array and matrix-object factors, with/without inner matrix, any SoftAbs coefficient incl. the "
             "large-argument branch by path forking, repeated eigenvalues, tuple structure of block matrices) are checked: the reported gradients equal the symbolic derivatives for all real "
             "parameter values at the fixed shapes, have the parameter's shape, vanish outside a triangular parameter's triangle and are symmetric for symmetric-array parameters.",
-    "note": "fixed shapes (dimension 2, rank-1 updates, 3 blocks); shim table, sympy differentiation/simplification trusted; reals for floats; numeric-only equalities are reported as bounded.",
+    "note": "fixed shapes (dimension 2, rank-1 updates, 3 blocks); shim table, sympy differentiation/simplification trusted; reals for floats; numeric-only equalities are reported as bounded."
+            ' Added in rounds 3-4: nested block parameter => nested gradient; upper-factor conventions (cho_solve shim); BOUNDED native stand-ins for dtype independence and gradient freshness (Engine B computes over the reals).',
 }
 CHECKS["C19"] = {
     "engine": "symla + frames",
@@ -161,10 +171,11 @@ CHECKS["C19"] = {
             "were cached before (derived-object obligations of all factor-caching classes); per class, constructor arrays are read-only, equal parameters compare and hash equal, a "
             "differing defining option implies unequal objects or equal arrays, and copy / deepcopy / pickle equal the original.",
     "note": "value-semantics clauses are exercised on numeric instances (complete over classes and listed options, sampled over values: reported as bounded); hash_array and numpy writeable "
-            "flags trusted; project_onto_cotangent_space mutating its `mom` argument is a system method and outside this property.",
+            "flags trusted; project_onto_cotangent_space mutating its `mom` argument is a system method and outside this property."
+            ' Added in rounds 3-4 (bounded, native): derived objects do not inherit cached attributes; properties identical on repeated evaluation in any order incl. partially supplied eigendecompositions; equality under colliding cached hashes.',
 }
 CHECKS["C05"] = {
-    "engine": "symla",
+    "engine": "symla+ncalg",
     "technique": "contract-based verification by exact symbolic execution of the real system classes with uninterpreted smooth model functions: postconditions value == documented formula and derivative method == sympy derivative of the value",
     "design_ref": "DESIGN.md section 7 C05",
     "text": "Euclidean, Gaussian-split, dense constrained (both density conventions), Gaussian constrained and scalar/diagonal/Cholesky/dense Riemannian systems, with every metric type and "
@@ -172,16 +183,18 @@ CHECKS["C05"] = {
             "dh_dmom equal the symbolic derivatives, also under repeated evaluation (cache not corrupted). Identities contain the model functions as undefined functions with Derivative "
             "atoms, so a discharged obligation holds for every smooth model and every state at dimension 2.",
     "note": "user derivative functions assumed exact (A4); SoftAbs system covered through its metric class (C10/C11) and the generic Riemannian methods; dimension 2, one constraint; "
-            "equalities sympy cannot simplify are checked with random concrete model functions and reported as bounded.",
+            "equalities sympy cannot simplify are checked with random concrete model functions and reported as bounded."
+            ' Added in rounds 3-4: kinetic term for all dimensions (Engine D); value-dependent branches fork with multiscale witnesses; metrics given as 2-D arrays / implicitly sized; generic RiemannianMetricSystem with a tuple-structured block metric; static log-space obligation on every log_abs_det; cache protocol imported.',
 }
 CHECKS["C07"] = {
-    "engine": "symla",
+    "engine": "symla+ncalg",
     "technique": "contract-based verification by exact symbolic execution of the real flow methods with symbolic time: ODE / group-law / inverse / energy postconditions and Jacobian-block postcondition for dh2_flow_dmom",
     "design_ref": "DESIGN.md section 7 C07",
     "text": "h1_flow, Euclidean and Gaussian h2_flow and dh2_flow_dmom of all tractable-flow systems and metric types (incl. the default implicit identity and a metric replaced after first use) "
             "are traced for a symbolic real time: kick and drift formulas, Hamilton's ODE by symbolic time-differentiation, Phi(s)oPhi(t)=Phi(s+t), Phi(-t)oPhi(t)=id, energy conservation, and "
             "dh2_flow_dmom equal to the Jacobian blocks of the traced flow for both signs of t.",
-    "note": "reals for floats; dimension 2; trig identities by sympy; dense metrics whose eigendecomposition comes from numpy eigh are represented by the eigendecomposed class.",
+    "note": "reals for floats; dimension 2; trig identities by sympy; dense metrics whose eigendecomposition comes from numpy eigh are represented by the eigendecomposed class."
+            ' Added in rounds 3-4: Euclidean drift, group law, inverse, energy conservation and dh2_flow_dmom for ALL dimensions (Engine D); repeated-evaluation, read-set and cache-protocol obligations imported; implicitly sized non-identity metric.',
 }
 CHECKS["C08"] = {
     "engine": "symla+ncalg+pyvc",
@@ -195,14 +208,15 @@ CHECKS["C08"] = {
             "the reassigned-coefficient history is covered by the native replay and an explicit obligation.",
 }
 CHECKS["C03"] = {
-    "engine": "symla+pyvc",
+    "engine": "symla+pyvc+ncalg",
     "technique": "contract-based verification: exact symplecticity postconditions (J^T Omega J == Omega) on the Jacobians of the real component flows traced symbolically, structural contracts (composition of flows, adjoint pairs, RATTLE form) on the real integrator steps, bounded native finite-difference check for implicit and constrained steps",
     "design_ref": "DESIGN.md section 7 C03",
     "text": "Every explicit component flow (h1_flow; Euclidean and Gaussian h2_flow; every metric type; symbolic time; uninterpreted smooth target) has an exactly symplectic Jacobian; explicit integrator steps are proved to be compositions of exactly these flows "
             "(obligations shared with C06) and whole leapfrog / BCSS steps of the real integrator are traced on a symbolic-coefficient cubic target family; implicit sub-steps are proved to be the generalised-leapfrog / implicit-midpoint equations and their adjoints "
             "(shared with C02), constrained steps to have the RATTLE form with closed-form cotangent projection (shared with C04).",
     "note": "that generalised leapfrog, implicit midpoint and RATTLE compositions are symplectic is a cited theorem (A9), not proved; for those steps the check adds a BOUNDED native finite-difference Jacobian test (labelled bounded, not counted as proved). "
-            "Whole-step traces use one polynomial target family (bounded in the function class). Reals for floats; dimension 2.",
+            "Whole-step traces use one polynomial target family (bounded in the function class). Reals for floats; dimension 2."
+            ' Added in rounds 3-4: composition / inverse closure of the symplectic group as a discharged dimension-generic lemma (Engine D); SoftAbs gradient contracts (C11) and the cache protocol (C09) imported.',
 }
 CHECKS["C01"] = {
     "engine": "pyvc",
@@ -213,6 +227,7 @@ CHECKS["C01"] = {
             "P(outer) = W_out/W, direction-independent termination decision) proved for every depth by induction; sample loop invariant (fair direction bit, doubling from the edge, biased progressive selection min(1, W_new/W_old), statistics == ghost counters); "
             "slice level uniform under the start density and slice divergence test reads only (h, log_u); the two selection lemmas.",
     "note": "orbit contract of the integrator (A6) from C02; the composition of the proved per-call contracts into stationarity of the tree kernels on an unbounded orbit is a paper lemma (A7), supported by a BOUNDED exact enumeration of the real kernels "
-            "(depth <= 3 multinomial, <= 2 slice with divergence cut, Metropolis static/random with symmetric step failures) labelled bounded; multinomial invariance is claimed without divergence cuts; reals for floats; LogRepFloat by its C20 contract.",
+            "(depth <= 3 multinomial, <= 2 slice with divergence cut, Metropolis static/random with symmetric step failures) labelled bounded; multinomial invariance is claimed without divergence cuts; reals for floats; LogRepFloat by its C20 contract."
+            ' Added in rounds 3-4: terminated sub-trees are discarded at every depth; returned statistics are a subset of statistic_types and the error flags name the kind of integrator error (incl. subclasses).',
 }
 NOT_APPLICABLE = {}
